@@ -106,7 +106,7 @@ static std::string known_gap(const std::set<std::string> &known, bool lib_accept
   auto has = [&](const char *id) { return known.count(id) ? std::string(id) : std::string(); };
   if (lib_accepted) {
     if (reason == "array-len-multiple") return has("C01-fixed-array-length-not-multiple");
-    if (reason == "sig" || reason == "depth" || reason == "variant-sig" || reason == "field-sig") return has("C01-signature-nesting-or-brackets");
+    if (reason == "sig" || reason == "variant-sig" || reason == "field-sig") return has("C01-signature-nesting-or-brackets");   // (signature strings only: value nesting beyond 64, reason "depth", is not part of that finding)
     if (reason == "field-value" || reason == "name") return has("C01-unique-name-without-period");
     return "";
   }
@@ -338,8 +338,24 @@ static wire::Msg targeted(wiregen::Rng &r) {
   // shapes tied to one rule of the specification each
   using wire::Value;
   wire::Msg m = wire::Msg::signal(1 + r.below(1000), "/a", "a.b", "M");
-  int k = (int)r.below(7);
+  int k = (int)r.below(10);
   switch (k) {
+    case 7: case 8: case 9: {
+      // value nesting around the limit of 64 containers in total: chains of variants (each level may also be
+      // wrapped in a struct or array) with a basic or a container value innermost; the codec says which are valid
+      int levels = 58 + (int)r.below(10);
+      int inner = (int)r.below(4);
+      Value v = inner == 0 ? Value::i32(7) : inner == 1 ? Value::strukt({Value::i32(7)}) : inner == 2 ? Value::array("i", {Value::i32(7)}) : Value::strukt({Value::strukt({Value::i32(7)})});
+      int wrap_every = r.chance(50) ? 0 : 8 + (int)r.below(20);
+      for (int i = 0; i < levels; i++) {
+        v = Value::variant(v);
+        if (wrap_every && i % wrap_every == wrap_every - 1) v = r.chance(50) ? Value::strukt({v}) : Value::array("v", {v});
+      }
+      if (v.type != 'v') v = Value::variant(v);
+      m.set_body({v});
+      if (r.chance(50)) m.big_endian = true;
+      break;
+    }
     case 0: m.set_field(wire::F_INTERFACE, Value::string(r.chance(50) ? "org.freedesktop.DBus.Localx" : "org.freedesktop.DBus.Local.y")); break;   // valid: only the exact name is reserved
     case 1: m.set_field(wire::F_PATH, Value::path(r.chance(50) ? "/org/freedesktop/DBus/Locale" : "/org/freedesktop/DBus/Local/x")); break;
     case 2: m.set_field(wire::F_INTERFACE, Value::string("org.freedesktop.DBus.Local")); break;                                                  // invalid (reserved)
